@@ -283,8 +283,8 @@ func runC02(c *Ctx) {
 		}
 		// rets inside/after the host loop carry loop-control atoms; quantify them away by checking both polarities
 		// a return after a loop carries the loop's exit literal; loops terminate, so quantify the control atoms away
-		for _, l := range loopsOf(mr) {
-			for _, at := range u.AtomsOf(contCond(u, s, l)) {
+		for _, li := range loopInsts(g, s) {
+			for _, at := range u.AtomsOf(contCond(u, li.Act, li.L)) {
 				M = u.bdd.Exists(M, u.atomIx[at.key])
 			}
 		}
@@ -294,25 +294,25 @@ func runC02(c *Ctx) {
 		c.Check(okBasic && diff == False, "C02.R4", "MatchRequest: result.NetworkRule and matched flag", mr.Pos(),
 			"NetworkRule := basic rule when non-nil; matched == hostname != \"\" && (basic rule != nil || host lookup flag)",
 			fmt.Sprintf("basic rule stored exactly when non-nil=%v; matched differs from the documented flag when %s", okBasic, clip(u.ShowBool(diff), 200)))
-		// v4 / v6 split
-		var v4, v6 []Effect
+		// v4 / v6 split: the appends that feed the two result fields (directly, or through a helper)
+		famEms := map[string][]AEmission{}
 		for _, ef := range s.Effects {
 			if ef.Kind == "store" && ef.Addr.Op == "faddr" && (ef.Addr.Aux == "HostRulesV4" || ef.Addr.Aux == "HostRulesV6") {
-				if ef.Addr.Aux == "HostRulesV4" {
-					v4 = append(v4, ef)
-				} else {
-					v6 = append(v6, ef)
+				if st, ok := ef.Ins.(*ssa.Store); ok && ef.Act != nil {
+					ems, _ := traceAppends(g, AV{ef.Act, st.Val})
+					famEms[ef.Addr.Aux] = append(famEms[ef.Addr.Aux], ems...)
 				}
 			}
 		}
+		v4, v6 := famEms["HostRulesV4"], famEms["HostRulesV6"]
 		bad := ""
 		if len(v4) != 1 || len(v6) != 1 {
 			bad = fmt.Sprintf("UNDECIDED: expected one append site per address family, found %d/%d", len(v4), len(v6))
 		} else {
 			e4, e6 := v4[0], v6[0]
-			el := func(ef Effect) *E {
-				if ef.Val.Op == "append" && ef.Val.Aux == "elems" && len(ef.Val.Args) == 2 {
-					return ef.Val.Args[1]
+			el := func(em AEmission) *E {
+				if len(em.Elems) == 1 {
+					return em.Elems[0]
 				}
 				return nil
 			}
@@ -321,20 +321,28 @@ func runC02(c *Ctx) {
 				bad = "UNDECIDED: the two family lists do not append the same loop element"
 			} else {
 				var is4 Ref = False
-				for _, at := range u.AtomsOf(e4.Cond) {
+				for _, at := range u.AtomsOf(e4.RC) {
 					if at.Op == "call" && at.Aux == "(net/netip.Addr).Is4" && at.Args[0].Op == "field" && at.Args[0].Aux == "IP" && at.Args[0].Args[0] == r4 {
 						is4 = u.Atom(at)
 					}
 				}
-				common := u.bdd.Or(e4.Cond, e6.Cond)
-				if is4 == False || e4.Cond != u.bdd.And(common, is4) || e6.Cond != u.bdd.And(common, u.bdd.Not(is4)) {
+				common := u.bdd.Or(e4.RC, e6.RC)
+				if is4 == False || e4.RC != u.bdd.And(common, is4) || e6.RC != u.bdd.And(common, u.bdd.Not(is4)) {
 					bad = "the host rule is not filed under V4 exactly when its own address (rule.IP, not a converted copy) Is4() and under V6 otherwise: e.g. an IPv4-mapped IPv6 address must stay in the IPv6 group"
 				}
 				// every *HostRule of the lookup result is filed
-				loops := loopsOf(mr)
-				l := innermostLoop(loops, e4.Ins.Block())
-				if bad == "" && (l == nil || !onlyExhaustionExit(l) || rangedOver(l) == nil || !rangedOver(l).Full) {
+				loops := loopsOf(e4.Act.Fn)
+				l := innermostLoop(loops, e4.Call.Block())
+				if bad == "" && (l == nil || e6.Act != e4.Act || l != innermostLoop(loops, e6.Call.Block()) || !onlyExhaustionExit(l) || rangedOver(l) == nil || !rangedOver(l).Full) {
 					bad = "the loop filing host rules is not a complete scan of the lookup result"
+				}
+				// ... and the scanned collection is the lookup result
+				if bad == "" {
+					coll := e4.Act.Env[rangedOver(l).Coll]
+					probeRes := u.mk("extract", "0", nil, callProbe.Call)
+					if coll == nil || coll.key != probeRes.key {
+						bad = "the loop filing host rules does not range over the result of the host-table lookup: " + clip(u.Show(coll), 80)
+					}
 				}
 			}
 		}
